@@ -45,70 +45,51 @@ fn opt_vec_eq(a: &Option<Vec<u64>>, b: &Option<Vec<u64>>) -> bool {
     }
 }
 
-/// arbitrary rule value -> wire struct -> rule value: every field that matching, tag gating, id ordering or
-/// modifier consumers read is unchanged.
-fn rule_kernel(two_domains: bool) {
+fn roundtrip(nf: &NetworkFilter) -> NetworkFilter {
+    let ser: NetworkFilterV0SerializeFmt<'_> = nf.into();
+    bridge(&ser).into()
+}
+fn blank(mask: NetworkFilterMask) -> NetworkFilter {
+    NetworkFilter {
+        mask,
+        filter: FilterPart::Empty,
+        opt_domains: None,
+        opt_not_domains: None,
+        modifier_option: None,
+        hostname: None,
+        tag: None,
+        raw_line: None,
+        id: 0,
+        opt_domains_union: None,
+        opt_not_domains_union: None,
+    }
+}
+
+/// arbitrary rule value -> wire struct -> rule value, part 1: mask (all 2^32), id, modifier / hostname / tag /
+/// raw_line each absent or a 1-byte string.
+#[kani::proof]
+#[kani::unwind(6)]
+fn c08_rule() {
     let mut dr = crate::verif_shim::Draw::new();
     let m: u32 = dr.u32();
     let (has_mod, has_host, has_tag, has_raw): (bool, bool, bool, bool) = (dr.bool(), dr.bool(), dr.bool(), dr.bool());
-    let (cm, ch, ct, cr, cf): (u8, u8, u8, u8, u8) = (dr.u8(), dr.u8(), dr.u8(), dr.u8(), dr.u8());
-    kani::assume(cm < 0x80 && ch < 0x80 && ct < 0x80 && cr < 0x80 && cf < 0x80);
-    let fk: u8 = dr.u8();
-    kani::assume(fk < 3);
-    let (nd, nn): (u8, u8) = (dr.u8(), dr.u8());
-    kani::assume(nd <= 2 && nn <= 2);
-    if !two_domains {
-        kani::assume(nd <= 1 && nn <= 1);
-    }
-    let (d0, d1, n0, n1): (u64, u64, u64, u64) = (dr.u64(), dr.u64(), dr.u64(), dr.u64());
-    let (has_du, has_nu): (bool, bool) = (dr.bool(), dr.bool());
-    let (du, nu): (u64, u64) = (dr.u64(), dr.u64());
+    let (cm, ch, ct, cr): (u8, u8, u8, u8) = (dr.u8(), dr.u8(), dr.u8(), dr.u8());
+    kani::assume(cm < 0x80 && ch < 0x80 && ct < 0x80 && cr < 0x80);
     let id: u64 = dr.u64();
-    let mk_part = |k: u8, c: u8| -> FilterPart {
-        let mut s = String::new();
-        s.push(c as char);
-        match k {
-            0 => FilterPart::Empty,
-            1 => FilterPart::Simple(s),
-            _ => FilterPart::AnyOf(vec![s, String::from("z")]),
-        }
-    };
-    let mk_vec = |n: u8, a: u64, b: u64| -> Option<Vec<u64>> {
-        match n {
-            0 => None,
-            1 => Some(vec![a]),
-            _ => Some(vec![a, b]),
-        }
-    };
-    let nf = NetworkFilter {
-        mask: NetworkFilterMask::from_bits_retain(m),
-        filter: mk_part(fk, cf),
-        opt_domains: mk_vec(nd, d0, d1),
-        opt_not_domains: mk_vec(nn, n0, n1),
-        modifier_option: opt_str(has_mod, cm),
-        hostname: opt_str(has_host, ch),
-        tag: opt_str(has_tag, ct),
-        raw_line: opt_str(has_raw, cr).map(Box::new),
-        id,
-        opt_domains_union: if has_du { Some(du) } else { None },
-        opt_not_domains_union: if has_nu { Some(nu) } else { None },
-    };
-    let ser: NetworkFilterV0SerializeFmt<'_> = (&nf).into();
-    let back: NetworkFilter = bridge(&ser).into();
+    let mut nf = blank(NetworkFilterMask::from_bits_retain(m));
+    nf.modifier_option = opt_str(has_mod, cm);
+    nf.hostname = opt_str(has_host, ch);
+    nf.tag = opt_str(has_tag, ct);
+    nf.raw_line = opt_str(has_raw, cr).map(Box::new);
+    nf.id = id;
+    let back = roundtrip(&nf);
     assert!(back.mask == nf.mask, "P:rule.mask");
     assert!(back.id == nf.id, "P:rule.id");
     assert!(opt_str_eq(&back.hostname, &nf.hostname), "P:rule.hostname");
     assert!(opt_str_eq(&back.tag, &nf.tag), "P:rule.tag");
-    assert!(opt_vec_eq(&back.opt_domains, &nf.opt_domains) && opt_vec_eq(&back.opt_not_domains, &nf.opt_not_domains), "P:rule.domain_lists");
-    assert!(back.opt_domains_union == nf.opt_domains_union && back.opt_not_domains_union == nf.opt_not_domains_union, "P:rule.domain_unions");
-    let part_eq = match (&back.filter, &nf.filter) {
-        (FilterPart::Empty, FilterPart::Empty) => true,
-        (FilterPart::Simple(a), FilterPart::Simple(b)) => a.len() == 1 && b.len() == 1 && a.as_bytes()[0] == b.as_bytes()[0],
-        (FilterPart::AnyOf(a), FilterPart::AnyOf(b)) => a.len() == 2 && b.len() == 2 && a[0].as_bytes()[0] == b[0].as_bytes()[0] && a[1].as_bytes()[0] == b[1].as_bytes()[0],
-        _ => false,
-    };
-    assert!(part_eq, "P:rule.pattern");
     assert!(back.raw_line.is_some() == nf.raw_line.is_some(), "P:rule.raw_line");
+    assert!(matches!(back.filter, FilterPart::Empty), "P:rule.pattern");
+    assert!(back.opt_domains.is_none() && back.opt_not_domains.is_none() && back.opt_domains_union.is_none() && back.opt_not_domains_union.is_none(), "P:rule.domain_lists");
     let carried = nf.mask.contains(NetworkFilterMask::IS_REDIRECT) || nf.mask.contains(NetworkFilterMask::IS_CSP);
     if carried || !has_mod {
         assert!(opt_str_eq(&back.modifier_option, &nf.modifier_option), "P:rule.modifier_option_of_redirect_and_csp_rules");
@@ -116,17 +97,74 @@ fn rule_kernel(two_domains: bool) {
         assert!(opt_str_eq(&back.modifier_option, &nf.modifier_option), "K:modifier-option-only-kept-for-redirect-and-csp:rule.modifier_option");
     }
     kani::cover!(has_mod && carried && has_tag && has_host, "W:rule.full_rule_roundtrip");
-    kani::cover!(fk == 2 && nd == 1, "W:rule.anyof_with_domain");
+    kani::cover!(!has_mod && !has_host && !has_tag && !has_raw, "W:rule.bare_rule");
+    core::mem::forget(back);
+    core::mem::forget(nf);
+}
+
+/// part 2: domain lists (0..=2 hashes each) and union words, present/absent independently
+#[kani::proof]
+#[kani::unwind(6)]
+fn c08_rule_domains() {
+    let mut dr = crate::verif_shim::Draw::new();
+    let (nd, nn): (u8, u8) = (dr.u8(), dr.u8());
+    kani::assume(nd <= 2 && nn <= 2);
+    let (d0, d1, n0, n1): (u64, u64, u64, u64) = (dr.u64(), dr.u64(), dr.u64(), dr.u64());
+    let (has_du, has_nu): (bool, bool) = (dr.bool(), dr.bool());
+    let (du, nu): (u64, u64) = (dr.u64(), dr.u64());
+    let mk_vec = |n: u8, a: u64, b: u64| -> Option<Vec<u64>> {
+        match n {
+            0 => None,
+            1 => Some(vec![a]),
+            _ => Some(vec![a, b]),
+        }
+    };
+    let mut nf = blank(NetworkFilterMask::DEFAULT_OPTIONS);
+    nf.opt_domains = mk_vec(nd, d0, d1);
+    nf.opt_not_domains = mk_vec(nn, n0, n1);
+    nf.opt_domains_union = if has_du { Some(du) } else { None };
+    nf.opt_not_domains_union = if has_nu { Some(nu) } else { None };
+    let back = roundtrip(&nf);
+    assert!(opt_vec_eq(&back.opt_domains, &nf.opt_domains), "P:rule.domain_lists.included");
+    assert!(opt_vec_eq(&back.opt_not_domains, &nf.opt_not_domains), "P:rule.domain_lists.excluded");
+    assert!(back.opt_domains_union == nf.opt_domains_union, "P:rule.domain_unions.included");
+    assert!(back.opt_not_domains_union == nf.opt_not_domains_union, "P:rule.domain_unions.excluded");
+    kani::cover!(nd == 2 && nn == 1 && has_du && !has_nu, "W:rule.mixed_domain_lists");
+    core::mem::forget(back);
+    core::mem::forget(nf);
+}
+
+/// part 3: pattern Simple / AnyOf (Empty is part 1). The variant is fixed per harness: a symbolic choice of
+/// the enum variant makes every clone/drop arm symbolic (out of memory at 8 GB).
+fn pattern_kernel(anyof: bool) {
+    let mut dr = crate::verif_shim::Draw::new();
+    let (c0, c1): (u8, u8) = (dr.u8(), dr.u8());
+    kani::assume(c0 < 0x80 && c1 < 0x80);
+    let one = |c: u8| -> String {
+        let mut s = String::new();
+        s.push(c as char);
+        s
+    };
+    let mut nf = blank(NetworkFilterMask::DEFAULT_OPTIONS);
+    nf.filter = if anyof { FilterPart::AnyOf(vec![one(c0), one(c1)]) } else { FilterPart::Simple(one(c0)) };
+    let back = roundtrip(&nf);
+    let part_eq = match (&back.filter, &nf.filter) {
+        (FilterPart::Simple(a), FilterPart::Simple(b)) => a.len() == 1 && b.len() == 1 && a.as_bytes()[0] == b.as_bytes()[0],
+        (FilterPart::AnyOf(a), FilterPart::AnyOf(b)) => a.len() == 2 && b.len() == 2 && a[0].as_bytes()[0] == b[0].as_bytes()[0] && a[1].as_bytes()[0] == b[1].as_bytes()[0],
+        _ => false,
+    };
+    assert!(part_eq, "P:rule.pattern");
+    kani::cover!(part_eq && c0 != c1, "W:rule.pattern_roundtrip");
     core::mem::forget(back);
     core::mem::forget(nf);
 }
 #[kani::proof]
 #[kani::unwind(6)]
-fn c08_rule() {
-    rule_kernel(false);
+fn c08_rule_pattern_simple() {
+    pattern_kernel(false);
 }
 #[kani::proof]
 #[kani::unwind(6)]
-fn c08_rule_t() {
-    rule_kernel(true);
+fn c08_rule_pattern_anyof() {
+    pattern_kernel(true);
 }
